@@ -8,7 +8,7 @@
 // Result: {"yara":   {"error": text} | {"scans": [SCAN, ...]},
 //          "boreal": {"error": text} | {"panic": text} | {"scans": [SCAN, ...]}}
 //   SCAN (yara):   {"err": null|text, "rules": [RULE, ...]}        every non-private rule, matched or not
-//   boreal also: "desc": [[nb literals, kind], ...] per string in compilation order (global rules' strings first),
+//   boreal also: "desc": [[nb literals, kind, reverse validator and literals of unequal lengths], ...] per string in compilation order (global rules' strings first),
 //                read through the hook Scanner::verif_describe_strings (cfg boreal_verif)
 //   SCAN (boreal): {"err": null|text, "rules": [RULE, ...],        compute_full_matches + include_not_matched
 //                   "default": ["ns:name", ...]}                   matched rules under default ScanParams
@@ -171,7 +171,10 @@ fn run_boreal(case: &Value) -> Value {
     let desc: Vec<Value> = scanner
         .verif_describe_strings()
         .iter()
-        .map(|d| json!([d.literals.len(), d.kind]))
+        .map(|d| {
+            let unequal = d.literals.iter().any(|l| l.len() != d.literals[0].len());
+            json!([d.literals.len(), d.kind, unequal && d.pre_hir.is_some()])
+        })
         .collect();
     #[cfg(not(boreal_verif))]
     let desc: Vec<Value> = Vec::new();
